@@ -40,3 +40,36 @@ impl std::io::Write for ShortWriter {
     }
 }
 
+
+/// Simultaneous use from free-running threads (statistical): `jobs[i]` is run alone first (the reference), then all
+/// jobs are run at the same moment on their own threads, `rounds` times; every simultaneous result must equal the
+/// reference of its job. Returns the first disagreement as (job index, round, got).
+pub fn simultaneous_agreement<T: PartialEq + Send, F: Fn() -> T + Sync>(jobs: &[F], rounds: usize) -> Option<(usize, usize, T)> {
+    let reference: Vec<T> = jobs.iter().map(|j| j()).collect();
+    let n = jobs.len();
+    for round in 0..rounds {
+        let ready = std::sync::atomic::AtomicUsize::new(0);
+        let results: Vec<T> = std::thread::scope(|s| {
+            let hs: Vec<_> = jobs
+                .iter()
+                .map(|j| {
+                    let ready = &ready;
+                    s.spawn(move || {
+                        ready.fetch_add(1, std::sync::atomic::Ordering::SeqCst);
+                        while ready.load(std::sync::atomic::Ordering::SeqCst) < n {
+                            std::hint::spin_loop();
+                        }
+                        j()
+                    })
+                })
+                .collect();
+            hs.into_iter().map(|h| h.join().expect("job panicked")).collect()
+        });
+        for (i, r) in results.into_iter().enumerate() {
+            if r != reference[i] {
+                return Some((i, round, r));
+            }
+        }
+    }
+    None
+}
